@@ -227,6 +227,74 @@ def register(OPS, drv):
             out.append([bsr, strict])
         return out
 
+    def op_c03_live(job):
+        """The real ThreadingTCPServer + GopherRequestHandler on an ephemeral port (demo certificate for
+        TLS), every request sent by a real TCP / TLS client, in order, over one server process.
+        -> per request: bytes received until EOF, the server's log lines, seconds, client-side error"""
+        import base64
+        import os
+        import ssl
+        import threading
+        import pygopherd.server as pserver
+        spec = dict(job)
+        cfg = dict(spec.get("config") or {})
+        pg = dict(cfg.get("pygopherd", {}))
+        pg.update({"servername": "gopher.example", "advertisedport": "70", "timeout": "20"})
+        cfg["pygopherd"] = pg
+        spec["config"] = cfg
+        w = drv.World(spec)
+        crt = os.path.join(drv.REPO, "testdata", "demo.crt")
+        key = os.path.join(drv.REPO, "testdata", "demo.key")
+        ctx = ssl.create_default_context(ssl.Purpose.CLIENT_AUTH)
+        ctx.load_cert_chain(crt, key)
+        cctx = ssl.SSLContext(ssl.PROTOCOL_TLS_CLIENT)
+        cctx.check_hostname = False
+        cctx.verify_mode = ssl.CERT_NONE
+        srv = pserver.ThreadingTCPServer(w.config, ("127.0.0.1", 0), pserver.GopherRequestHandler, context=ctx)
+        srv.daemon_threads = True
+        th = threading.Thread(target=srv.serve_forever, kwargs={"poll_interval": 0.05}, daemon=True)
+        th.start()
+        res = []
+        try:
+            for r in job["requests"]:
+                got = []
+                err = None
+                del drv._logsink[:]
+                t0 = time.time()
+                s = socket.create_connection(srv.server_address[:2], timeout=20)
+                try:
+                    if r.get("tls"):
+                        s = cctx.wrap_socket(s)
+                    s.sendall(drv.s2b(r["data"]))
+                    if not r.get("tls"):
+                        s.shutdown(socket.SHUT_WR)      # the request is complete: a header block may end at EOF
+                    while True:
+                        d = s.recv(1 << 16)
+                        if not d:
+                            break
+                        got.append(d)
+                except Exception as e:  # what a client would see
+                    err = type(e).__name__ + ": " + str(e)
+                finally:
+                    try:
+                        s.close()
+                    except Exception:
+                        pass
+                dt = time.time() - t0
+                # the handler thread logs before it closes the connection; give a failing one a moment
+                for _ in range(20):
+                    if drv._logsink:
+                        break
+                    time.sleep(0.005)
+                res.append({"out": drv.b2s(b"".join(got)), "exc": err, "log": list(drv._logsink), "secs": round(dt, 4)})
+        finally:
+            srv.shutdown()
+            srv.server_close()
+            th.join(timeout=5)
+            w.close()
+        return {"root": w.root, "results": res}
+
+    OPS["c03_live"] = op_c03_live
     OPS["k03_calls"] = op_k03_calls
     OPS["k03_handle"] = op_k03_handle
     OPS["k03_e2e"] = op_k03_e2e
